@@ -149,6 +149,11 @@ impl Agg {
 
     pub fn merge(&mut self, workload: &str, index: u64, o: Outcome) {
         self.evaluations += 1;
+        if std::env::var("VH_DUMP").ok().as_deref() == Some(&format!("{workload}#{index}")) {
+            for l in &o.log {
+                println!("  | {l}");
+            }
+        }
         if o.nontrivial {
             self.nontrivial_hashes.insert(o.shape_hash);
         }
